@@ -22,7 +22,8 @@ SPEC = {
                  "every single-writer operation sequence via frame lemmas on byte lists; refinement of the byte-level writer "
                  "to an abstract name->value map; independent encoder proved well-formed and read back) + "
                  "translator-generated constants + byte-exact differential correspondence of the extracted model",
-    "level_text": "Machine-checked theorems over the Gallina model of round/hash/mappedHeader/place/entryAt/lookup/newCounter/"
+    "level_text": "round, hash and mappedFile.place of the model are proved equal, for all inputs in range, to the Go functions "
+                  "as translated from the current source on every run (Gen/GoFns.v). Machine-checked theorems over the Gallina model of round/hash/mappedHeader/place/entryAt/lookup/newCounter/"
                   "extend/openMapped: place_ok for every limit and name length 1..4096 below the uint32 wrap; the hash is "
                   "FNV-1a 32 with the published constants, folded, mod 512; wf_file (the documented layout as an executable "
                   "checker, whose meaning is restated clause by clause in C10_wf_file_meaning) holds after every operation "
@@ -50,5 +51,6 @@ SPEC = {
     "trusted_base": [],
     "own_objects": ["theories/Props/C10.vo", "theories/Proofs/LayoutArith.vo", "theories/Proofs/LayoutRead.vo",
                     "theories/Proofs/LayoutWrite.vo", "theories/Proofs/WriterFacts.vo", "theories/Proofs/WriterInv.vo",
-                    "theories/Proofs/EncodeFacts.vo", "theories/Proofs/FormatExtras.vo", "theories/Model/Layout.vo"],
+                    "theories/Proofs/EncodeFacts.vo", "theories/Proofs/FormatExtras.vo", "theories/Proofs/GoFnsLayout.vo",
+                    "theories/Model/Layout.vo"],
 }
